@@ -236,7 +236,8 @@ class Gen:
         xs = [inl_text(rng.choice(SAFE_START))]
         for _ in range(n):
             if allow_nl and rng.random() < 0.2:
-                xs.append({"k": "nl"})
+                # a plain line break, or (rarely) one with a backslash as the last character of the line
+                xs.append({"k": "escnl"} if rng.random() < 0.15 else {"k": "nl"})
                 xs.append(inl_text(rng.choice(SAFE_START)))
                 continue
             xs.append({"k": "sp"})
@@ -1103,7 +1104,7 @@ class C03(core.PropertyCheck):
                     # chunks = maximal runs of glued items; a chunk is removed together with the separator before it
                     chunks, cur = [], []
                     for x in b["xs"]:
-                        if x["k"] in ("sp", "nl"):
+                        if x["k"] in ("sp", "nl", "escnl"):
                             chunks.append(cur); cur = [x]
                         else:
                             cur.append(x)
